@@ -14,7 +14,7 @@ RULE = ("seeded sets of 1..6 single files (and hive sub-datasets) written from s
         "distinct = distinct (layout, n files, open route, root given, zero-row file, label change, legacy/new footer path) tuples")
 ASSUMPTIONS = ["each input file is written by fastparquet itself from a known frame (tied to the frame by C01)",
                "directory listing order is the sorted path order returned by fsspec find/glob"]
-CASE_TIMEOUT = 300
+CASE_TIMEOUT = 120
 
 from vf.gen import datasets as D
 from vf.gen import frames as F
@@ -90,6 +90,18 @@ def gen_cases(tier, seed):
                 files.append({"frame": f, "compression": None, "rel": dname + "/f%02d.parquet" % j})
             cases.append({"id": "MR/%d/%s/%s" % (li, layout, route), "frame": files[0]["frame"], "opts": {"has_nulls": True, "row_group_offsets": None},
                           "files": files, "layout": layout, "route": route, "mismatch": None})
+    # --- pieces given as handles the caller keeps (2..4 files: the per-file footer path and the concurrent one)
+    for nf in (2, 3, 4):
+        for route in ("list_pf", "merge_pf"):
+            for layout, dirs in (("flat", [""] * nf), ("hive", ["a=%d" % (j % 2) for j in range(nf)])):
+                k += 1
+                files = []
+                for j in range(nf):
+                    f = {"seed": 1600 + 13 * k + j, "nrows": 4 + j, "rid0": 10 * j, "index": None,
+                         "cols": [{"name": "rid", "kind": "rid"}, {"name": "v0", "kind": "float64", "nulls": "p20"}]}
+                    files.append({"frame": f, "compression": None, "rel": (dirs[j] + "/" if dirs[j] else "") + "f%02d.parquet" % j})
+                cases.append({"id": "PH/%d/%s/%s" % (nf, layout, route), "frame": files[0]["frame"], "opts": {"has_nulls": True, "row_group_offsets": None},
+                              "files": files, "layout": layout, "route": route, "mismatch": None})
     # --- category counts that differ between files (a growing vocabulary: each file's labels are a prefix of the next one's)
     for counts in ([(3, 150), (9, 150), (90, 140), (100, 150), (127, 128), (5, 40, 300), (99, 100, 130)] if tier == "quick" else
                    [(a, b) for a in (1, 2, 3, 9, 10, 90, 99, 100, 127, 128) for b in (128, 129, 140, 150, 256, 257, 1000) if a < b] + [(5, 40, 300), (99, 100, 130)]):
@@ -222,7 +234,7 @@ def run_case(case):
                 else:
                     pfs = [fastparquet.ParquetFile(p) for p in paths]
                     meta_snap = [bytes(x.fmd.to_bytes()) for x in pfs]
-                    pf = W.merge(pfs)
+                    pf = W.merge(pfs) if route == "merge_pf" else fastparquet.ParquetFile(pfs)
                     after = [bytes(x.fmd.to_bytes()) for x in pfs]
                     if after != meta_snap:
                         # observed and reported as a note only: the statement does not promise that merge() leaves the handles
@@ -237,6 +249,29 @@ def run_case(case):
                 res["nontrivial"] = True
                 res["features"] = [layout, k, route]
                 return res
+        if route in ("merge_pf", "list_pf"):
+            # the caller's handles of the pieces stay usable: handles derived from them afterwards (pickle, slice) still read their own
+            # file, and a second dataset opened from such derived handles is the same concatenation
+            import pickle
+            for j, h in enumerate(pfs):
+                for how in ("pickle", "slice"):
+                    try:
+                        h2 = pickle.loads(pickle.dumps(h)) if how == "pickle" else h[0:]
+                        r2 = [int(x) for x in h2.to_pandas(columns=["rid"], index=False)["rid"].tolist()]
+                    except Exception as e:
+                        res["failures"].append({"kind": "piece_handle_unusable_after_open_or_merge", "derived_by": how, "file": j, **ctx, **C.exc_shape(e)})
+                        continue
+                    if r2 != [int(x) for x in frames[j]["rid"].tolist()]:
+                        res["failures"].append({"kind": "piece_handle_reads_other_rows_after_open_or_merge", "derived_by": how, "file": j, **ctx})
+                    counters["piece_handles_rechecked"] = counters.get("piece_handles_rechecked", 0) + 1
+            try:
+                again = fastparquet.ParquetFile([pickle.loads(pickle.dumps(h)) for h in pfs])
+                r3 = [int(x) for x in again.to_pandas(columns=["rid"], index=False)["rid"].tolist()]
+                if r3 != [int(x) for x in got["rid"].tolist()]:
+                    res["failures"].append({"kind": "second_open_of_the_same_pieces_differs", "first_n": len(got), "second_n": len(r3), **ctx})
+                counters["second_opens_from_derived_handles"] = counters.get("second_opens_from_derived_handles", 0) + 1
+            except Exception as e:
+                res["failures"].append({"kind": "second_open_of_the_same_pieces_raised", **ctx, **C.exc_shape(e)})
         if route in ("merge", "merge_pf", "merge_root"):
             for ev in aud.events:
                 if ev[0] == "open" and fsmon.is_write_mode(ev[2]) and os.path.basename(ev[1]) not in ("_metadata", "_common_metadata"):
@@ -322,4 +357,4 @@ def run_case(case):
 def required(tier):
     return {"opens_compared": 120, "route:list": 15, "route:dir": 15, "route:glob": 15, "route:merge": 15, "route:merge_pf": 15,
             "footer_path:new": 30, "footer_path:legacy": 30, "mismatch_rejected": 20, "partition_values_checked": 100, "footer_lattice_points": 30,
-            "growing_vocabulary_opens": 20, "merge_with_root": 10}
+            "growing_vocabulary_opens": 20, "merge_with_root": 10, "piece_handles_rechecked": 40, "second_opens_from_derived_handles": 10}
